@@ -167,16 +167,18 @@ Definition jll_decode (fuel : nat) (bs : list Z) : M jhdr :=
 
 (* ---------------- jpeg/lossless14sv1 ---------------- *)
 
-(* component loop of parseSOF3: make([]int, w*h) per component BEFORE the sampling factor check *)
-Fixpoint sv1_comps (data : list Z) (k : nat) (i : Z) (w h : Z) (ids : list Z) : M (list Z) :=
+(* component loop of parseSOF3: make([]int, w*h) per component BEFORE the sampling factor check;
+   the check applies only when numComponents (c) > 1 (F54: it was unconditional and rejected
+   conformant greyscale frames with H1 = V1 <> 1) *)
+Fixpoint sv1_comps (c : Z) (data : list Z) (k : nat) (i : Z) (w h : Z) (ids : list Z) : M (list Z) :=
   match k with
   | O => ret ids
   | S k' =>
     id <- idx data (6 + i * 3) ;;
     hv <- idx data (6 + i * 3 + 1) ;;
     _ <- alloc (w * h) 8 ;;
-    if negb ((hv / 16 =? 1) && (hv mod 16 =? 1)) then err
-    else sv1_comps data k' (i + 1) w h (ids ++ [id])
+    if (1 <? c) && negb ((hv / 16 =? 1) && (hv mod 16 =? 1)) then err
+    else sv1_comps c data k' (i + 1) w h (ids ++ [id])
   end.
 
 Definition sv1_parse_sof3 (st : jst) (bs : list Z) : M (jst * list Z) :=
@@ -193,7 +195,7 @@ Definition sv1_parse_sof3 (st : jst) (bs : list Z) : M (jst * list Z) :=
   if negb ((c =? 1) || (c =? 3)) then err else
   if zlen data <? 6 + c * 3 then err else
   _ <- alloc c 8 ;;
-  ids <- sv1_comps data (Z.to_nat c) 0 w h [] ;;
+  ids <- sv1_comps c data (Z.to_nat c) 0 w h [] ;;
   ret (mkJ w h c p (j_dc st) (j_ac st) ids, rest).
 
 Fixpoint sv1_scan_comps (data : list Z) (ids : list Z) (k : nat) (i : Z) : M unit :=
